@@ -576,6 +576,9 @@ def annLenField (fs : FieldSp) : Nat :=
   | .kwF _ n => annLen fs.ty + kwExtra fs.ty n
   | _ => annLen fs.ty
 
+/-- defaults that can be written as `default=`: the scalars, and `None` (= the parameter's own default: no default) -/
+def kwDefault (v : PyVal) : Bool := scalarDefault v || v.isNone
+
 /-- `Field.__init__(default=v)`: only a truthy default is validated here -/
 def applyKw (O : Oracles) (o : Obj) (v : PyVal) : R Obj :=
   match o with
@@ -593,7 +596,7 @@ def evTop (O : Oracles) (tm : TypeMap) (fs : FieldSp) : R Obj :=
   bindE (ev tm fs.ty) fun o =>
   match fs.dflt with
   | .kw v _ =>
-    if !kwAllowed fs.ty || !scalarDefault v then .error (.other "not-expressible") else applyKw O o v
+    if !kwAllowed fs.ty || !kwDefault v then .error (.other "not-expressible") else applyKw O o v
   | .kwF p _ => if !kwAllowed fs.ty then .error (.other "not-expressible") else applyKwF O o p
   | _ => .ok o
 
@@ -611,7 +614,8 @@ def hasNoneOpt : FieldDecl → Bool
 def finishField (O : Oracles) (d : FieldDecl) (opt : Bool) (dflt : DefaultSp) : R FieldRes :=
   match dflt with
   | .none => .ok (.field d (!opt) none)
-  | .kw v _ => .ok (.field d false (some v))
+  /- `default=None` is no default at all (`_default is not None` is the test everywhere) -/
+  | .kw v _ => if v.isNone then .ok (.field d (!opt) none) else .ok (.field d false (some v))
   | .kwF _ _ => .ok (.field d false (some factoryTag))
   /- a factory given with `=`: its product is validated; the factory itself is kept as `_default` on every
      path (also when the annotation converts to a Field class: `the_type(default=default)`, typedpy d1c0173) -/
@@ -633,7 +637,7 @@ def annField (O : Oracles) (tm : TypeMap) (fs : FieldSp) (o : Obj) : R FieldRes 
 /-- a field object found in the class body (its `default=`, if any, was handled by `applyKw`) -/
 def finishFieldNoCheck (d : FieldDecl) (opt : Bool) (dflt : DefaultSp) : R FieldRes :=
   match dflt with
-  | .kw v _ => .ok (.field d false (some v))
+  | .kw v _ => if v.isNone then .ok (.field d (!opt) none) else .ok (.field d false (some v))
   | .kwF _ _ => .ok (.field d false (some factoryTag))
   | _ => .ok (.field d (!opt) none)
 
